@@ -592,9 +592,10 @@ class Keyvalues:
                         'An extra closing bracket was added which would '
                         'close the outermost level.',
                     ) from None
-                if single_block and cur_block is root:
+                if single_block and cur_block is root and root._value:
                     # Single-block mode - we just exited out of the main block.
-                    # Return our child.
+                    # Return our child. (A block skipped by its [flag] is not in
+                    # the tree, so there is no child yet: keep looking.)
                     return root[0]
                 # We know this isn't a leaf KV, we made it earlier.
                 assert not isinstance(cur_block._value, str)
